@@ -110,8 +110,26 @@ func (c *Cluster) handleOffsetForLeaderEpoch(creq *clientReq) (kmsg.Response, er
 			nextEpoch := rp.LeaderEpoch + 1
 			si, mi, cur := pd.findBatchMeta(int64(nextEpoch), func(m *batchMeta) int64 { return int64(m.epoch) })
 
-			// Requested epoch is not yet known: keep -1 returns.
+			// No batch has an epoch above the requested one.
 			if cur == nil {
+				// The requested epoch is older than our current
+				// epoch (the leader changed but nothing has been
+				// produced since): like Kafka, whose epoch cache
+				// gains an entry when leadership changes, the
+				// requested epoch ends at the log end offset. This
+				// is not an unknown epoch; answering -1 would make
+				// clients reset their position.
+				if rp.LeaderEpoch < pd.epoch {
+					for i := len(pd.segments) - 1; i >= 0; i-- {
+						if idx := pd.segments[i].index; len(idx) > 0 {
+							sp.LeaderEpoch = idx[len(idx)-1].epoch
+							break
+						}
+					}
+					sp.EndOffset = pd.highWatermark
+					continue
+				}
+				// Requested epoch is not yet known: keep -1 returns.
 				sp.LeaderEpoch = -1
 				sp.EndOffset = -1
 				continue
